@@ -54,6 +54,7 @@ package bttest
 //@   ensures len(result) <= len(srs) && (len(srs) > 0 ==> len(result) > 0)
 //@   ensures obj(result) == obj(srs)
 //@   loop 1 invariant srs == old(srs)
+//@   loop 1 invariant frameExcept(elems(srs))
 //@   loop 1 invariant (idx1 == -1 && last == 0) || (0 <= last && last <= idx1)
 // output prefix 0..last: (S) and (D)
 //@   loop 1 invariant forall i, j :: 0 <= i < j <= last ==> !bytesLess(srs[j].start, srs[i].start)
